@@ -108,9 +108,30 @@ class World:
             self.lib_error = _lib_error_cls()
         lib_error = self.lib_error
 
+        trs = set(cfg.get("trs") or ())
+
+        def tn_of(value):
+            if isinstance(value, dict):
+                return value.get("_typename")
+            return getattr(value, "_typename", None) or type(value).__name__
+
+        def field_type_resolver(result, ctx, info, abstract_type):
+            return tn_of(result)
+
+        def type_type_resolver(result, ctx, info, abstract_type):
+            return world.types[abstract_type.name]["possibleSeq"][-1]
+
+        def engine_type_resolver(result, ctx, info, abstract_type):
+            return world.types[abstract_type.name]["possibleSeq"][0]
+
+        if "type" in trs:
+            t.TypeResolver("P", schema_name=sn)(type_type_resolver)
+
         def mk(tn, fn):
             fd_type = self.types[tn]["fields"][fn]["type"]
             kw = {}
+            if "field" in trs and "%s.%s" % (tn, fn) in ("Query.p", "Query.lp", "Query.np"):
+                kw["type_resolver"] = field_type_resolver
             if "field_parent_conc" in cfg:
                 kw["parent_concurrently"] = cfg["field_parent_conc"]
             if "seq_fields" in cfg:
@@ -170,6 +191,8 @@ class World:
             kw["query_cache_decorator"] = cfg["cache"]
         if "coercer" in cfg:
             kw["error_coercer"] = cfg["coercer"]
+        if "engine" in trs:
+            kw["custom_default_type_resolver"] = engine_type_resolver
         eng = main_loop().run(t.create_engine(self.sdl, schema_name=sn, **kw))
         self.engines[key] = eng
         return eng
